@@ -1,8 +1,11 @@
 """C07 — optional, variant and expected track the same state and value as the std types (DESIGN §4 C07)."""
+import concurrent.futures as cf
 import itertools
 import os
 import random
+import re
 import subprocess
+import sys
 import tempfile
 
 import lib
@@ -40,14 +43,55 @@ PROBES = {
     "C07_HAS_OPTREF_CONV": "etl::optional<int&> a; etl::optional<int const&> c(a); (void)c;",
 }
 PROBE_RESULT = {k: _probe(v) for k, v in PROBES.items()}
-# std::expected needs C++23; 9 variant + 4 optional + 4 expected configurations: -O0 keeps the build at ~1 min
-HARNESS_FLAGS = ["-std=c++23", "-O0"] + ["-D%s=%d" % kv for kv in sorted(PROBE_RESULT.items())]
+# std::expected needs C++23; 15 variant + 9 optional + 7 expected configurations at -O0, compiled as NPARTS object files in
+# parallel (harness/c07.cpp: -DC07_PART=k) by run() below; check.py then compiles main() and links them.
+BASE_FLAGS = ["-std=c++23", "-O0"] + ["-D%s=%d" % kv for kv in sorted(PROBE_RESULT.items())]
+HARNESS_FLAGS = list(BASE_FLAGS)
+NPARTS = 8
+
+
+def _build_parts():
+    """compile the configuration groups of the harness in parallel; returns the object files"""
+    os.makedirs(lib.BUILD, exist_ok=True)
+    flags = [f for f in lib.CXXFLAGS if f != "-g"] + BASE_FLAGS
+
+    def one(k):
+        out = os.path.join(lib.BUILD, "c07_part%d.o" % k)
+        cmd = [lib.CXX] + flags + ["-DC07_PART=%d" % k, "-I", os.path.join(lib.REPO, "include"), "-I", os.path.join(lib.VERIF, "harness"),
+                                   "-c", os.path.join(lib.VERIF, HARNESS), "-o", out]
+        rc, o, e = lib.sh(cmd, timeout=1200)
+        return out, rc, o + e
+
+    with cf.ThreadPoolExecutor(max_workers=NPARTS) as ex:
+        res = list(ex.map(one, range(NPARTS)))
+    bad = [r for r in res if r[1] != 0]
+    if bad:
+        raise lib.MachineryError("harness does not compile against %s:\n%s" % (lib.REPO, bad[0][2][-1500:]))
+    return [r[0] for r in res]
+
+
+def run(ctx, replay=None):
+    """standard flow of check.py, with the harness configurations pre-compiled in parallel"""
+    global HARNESS_FLAGS
+    objs = _build_parts()
+    HARNESS_FLAGS = BASE_FLAGS + ["-DC07_PART=-1"] + objs
+    import check
+    return check.standard(sys.modules[__name__], ctx, replay)
+
 
 RULE = ("A case is a history: `new kind=var|opt|oref|exp alts=.. n=N` creates N objects of one configuration (etl and std side by side), "
         "each following line is one operation on them; after every line the result and the (index, value) of every object are compared. "
         "Configurations: variant over {int,float}, {float,int}, {int,Trk}, {Trk,int}, {Trk,int,float}, {int,float,Trk}, {Trk,Mo}, "
-        "{int,float,Trk,Mo}, {float,Mo}; optional<int|float|Trk|Mo> with a partner optional<long|int>; optional<int&>; "
-        "expected<int,Trk>, <Trk,int>, <int,float>, <Trk,Mo> (Trk: non-trivial copy/move/destructor, Mo: move-only; float incl. NaN). "
+        "{int,float,Trk,Mo}, {float,Mo}, {int,C}, {int,D}, {int,A}, {int,B}, {Q,X}, {C,B}; optional<int|float|Trk|Mo|C|D|A|B|X> with a "
+        "partner optional<long|int>; optional<int&>; expected<int,Trk>, <Trk,int>, <int,float>, <Trk,Mo>, <int,C>, <Q,X>, <D,B> "
+        "(Trk: non-trivial copy/move/destructor, Mo: move-only; float incl. NaN; C, D, A, B: exactly one user-provided special member "
+        "- copy ctor, move ctor, copy assignment, move assignment - the other three defaulted and trivial; Q, X: all four "
+        "user-provided, X with a potentially-throwing copy ctor; each user-provided member leaves its own mark in the value, a "
+        "defaulted one copies the source's mark, so the stored value shows which special member produced it). "
+        "Value categories: `vcat` visits one or two variants as lvalue / const lvalue / rvalue / const rvalue (all 4 and all 16 "
+        "combinations) with a visitor that reports the reference kind of each argument and with a by-value visitor (moved-from "
+        "sources show in the state), plus the decltype matrix of visit, unchecked_get/std::get and operator[]; `ocat` / `ecat` do the "
+        "same for operator*, error(), and_then and or_else of optional and expected. "
         "Exhaustive part: every (from-state, to-state) pair over 2 values per alternative x {copy/move assignment, copy/move construction, "
         "generic swap, member swap, self forms, six relational operators, visit, visit_with_index}; every converting "
         "constructor/assignment argument type {int,short,long,float,Trk,Mo} x every state; optional: every pair x mixed "
@@ -72,6 +116,7 @@ TRUSTED = ["hand model Tetl/C07/Model.lean tied to the source by the corresponde
            "of the harness flags and of the evidence"]
 T = "Tetl.C07.Props."
 THEOREMS = {
+    "vcat": [], "ocat": [], "ecat": [],
     "visit": [T + "visit_dispatch", T + "visit1_active", T + "visit2_active"],
     "emplace": [T + "step_refines", T + "run_refines", T + "optional_refines", T + "expected_refines"],
     "assign": [T + "assign_refines", T + "assignSelf_refines", T + "step_refines", T + "run_refines"],
@@ -79,18 +124,20 @@ THEOREMS = {
     "swap": [T + "swap2_refines", T + "swapSelf_refines", T + "step_refines", T + "run_refines"],
     "rel": [T + "varRel_eq", T + "optRel_eq"], "relm": [T + "optRel_eq"],
     "reln": [T + "optRelNullR_eq", T + "optRelNullL_eq"], "relv": [T + "optRelValR_eq", T + "optRelValL_eq"],
-    "conv": [T + "step_refines", T + "assign_refines"],
+    "conv": [T + "step_refines", T + "assign_refines", T + "select_eq"],
     "get_if": [T + "getIf_eq"], "value_or": [T + "valueOr_eq"], "and_then": [T + "andThen_eq"],
     "reset": [T + "optional_refines"], "null": [T + "optional_refines"], "val": [T + "optional_refines"],
     "ctor_val": [T + "expected_refines"], "ctor_err": [T + "expected_refines"], "ctor_def": [T + "expected_refines"],
 }
 SEARCH_CAP = 300000
 
-VAR_CFGS = ["if", "fi", "it", "ti", "tif", "ift", "tm", "iftm", "fm"]
-OPT_CFGS = ["i", "f", "t", "m"]
-EXP_CFGS = ["it", "ti", "if", "tm"]
+VAR_CFGS = ["if", "fi", "it", "ti", "tif", "ift", "tm", "iftm", "fm", "ic", "id", "ia", "ib", "qx", "cb"]
+OPT_CFGS = ["i", "f", "t", "m", "c", "d", "a", "b", "x"]
+EXP_CFGS = ["it", "ti", "if", "tm", "ic", "qx", "db"]
+CAT_CFGS = ["it", "qx", "id", "tif"]          # variant configurations with the value-category observations compiled in
 ARGS = ["i", "s", "l", "f", "t", "m"]
-VALS = {"i": [1, 2], "f": [2, 1000], "t": [1, 2], "m": [1, 2]}
+VALS = {"i": [1, 2], "f": [2, 1000], "t": [1, 2], "m": [1, 2], "c": [1, 2], "d": [1, 2], "a": [1, 2], "b": [1, 2], "q": [1, 2],
+        "x": [1, 2]}
 
 
 def var_states(alts):
@@ -136,8 +183,17 @@ def gen_var_exhaustive(add, thorough):
             for t in itertools.product(range(n), repeat=3):
                 setup = [new("var", alts)] + ["emplace s=%d i=%d v=%d" % (k, i, VALS[alts[i]][k % 2]) for k, i in enumerate(t)]
                 add(setup + ["visit s=[0,1,2]", "visit s=[2,0,1] idx=1", "visit s=[1,1,0]"], "var-visit3/" + alts)
+    # value categories: every object category for one variant, every pair of categories for two, by-value visitor
+    for alts in CAT_CFGS:
+        for (i0, v0), (i1, v1) in itertools.product([(i, VALS[a][0]) for i, a in enumerate(alts)], repeat=2):
+            setup = [new("var", alts), "emplace s=0 i=%d v=%d" % (i0, v0), "emplace s=1 i=%d v=%d" % (i1, v1)]
+            add(setup + ["vcat s=[0] q=[%d] vis=cat" % q for q in range(4)]
+                + ["vcat s=[0,1] q=[%d,%d] vis=cat" % (q, r) for q in range(4) for r in range(4)], "var-cat/" + alts)
+            for q in range(4):
+                add(setup + ["vcat s=[0] q=[%d] vis=take" % q, "vcat s=[1,0] q=[%d,%d] vis=take" % (q, 3 - q), "visit s=[0,1]"], "var-cat/" + alts)
+                add(setup + ["vcat s=[0,1] q=[2,%d] vis=take" % q, "vcat s=[0,1] q=[%d,2] vis=take" % q], "var-cat/" + alts)
     # all histories of a fixed depth over a small alphabet, two objects
-    for alts in (["it", "if"] if not thorough else ["it", "if", "tm"]):
+    for alts in (["it", "if", "ic", "qx"] if not thorough else ["it", "if", "tm", "ic", "id", "ia", "ib", "qx", "cb"]):
         alpha = ["emplace s=%d i=%d v=%d" % (k, i, 1 + k) for k in (0, 1) for i in (0, 1)]
         alpha += ["assign s=%d from=%d mv=%d" % (k, j, mv) for k in (0, 1) for j in (0, 1) for mv in (0, 1)]
         alpha += ["ctor s=%d from=%d mv=%d" % (k, j, mv) for k in (0, 1) for j in (0, 1) for mv in (0, 1)]
@@ -167,7 +223,9 @@ def gen_opt_exhaustive(add, thorough):
             for op in ["assign s=0 from=0 mv=0", "assign s=0 from=0 mv=1", "ctor s=0 from=0 mv=1", "swap s=0 with=0",
                        "swap s=0 with=0 via=member", "reset s=0", "null s=0 how=assign", "null s=0 how=ctor", "reln s=0", "has s=0",
                        "value_or s=0 v=7", "value_or s=0 v=7 mv=1", "and_then s=0 f=inc", "and_then s=0 f=none",
-                       "or_else s=0 v=5", "or_else s=0", "or_else s=0 v=5 mv=1", "emplace s=0 v=2"]:
+                       "or_else s=0 v=5", "or_else s=0", "or_else s=0 v=5 mv=1", "emplace s=0 v=2",
+                       "ocat s=0 q=0", "ocat s=0 q=1", "ocat s=0 q=2", "ocat s=0 q=3", "ocat s=0 q=0 take=1", "ocat s=0 q=1 take=1",
+                       "ocat s=0 q=2 take=1", "ocat s=0 q=3 take=1"]:
                 add(setup + [op, "has s=0", "reln s=0"], "opt-one/" + t)
             for own in VALS[t] + [3]:
                 add(setup + ["relv s=0 a=own v=%d" % own], "opt-relv/" + t)
@@ -215,7 +273,8 @@ def gen_exp_exhaustive(add, thorough):
             setup = [new("exp", alts), setx(0, s0)]
             for op in ["assign s=0 from=0 mv=0", "assign s=0 from=0 mv=1", "swap s=0 with=0", "ctor s=0 from=0 mv=1", "ctor_def s=0",
                        "emplace s=0 v=2", "has s=0", "value_or s=0 v=7", "value_or s=0 v=7 mv=1", "and_then s=0 f=inc",
-                       "and_then s=0 f=fail v=3", "or_else s=0 f=recover v=4", "or_else s=0 f=same"]:
+                       "and_then s=0 f=fail v=3", "or_else s=0 f=recover v=4", "or_else s=0 f=same",
+                       "ecat s=0 q=0", "ecat s=0 q=1", "ecat s=0 q=2", "ecat s=0 q=3"]:
                 add(setup + [op, "has s=0"], "exp-one/" + alts)
             add(setup + ["assign_unex s=0 v=1"], "exp-unex/" + alts)
 
@@ -244,9 +303,12 @@ def rand_var(rnd, alts, length):
             lines.append("rel s=%d with=%d" % (k, j))
         elif r < 0.90:
             lines.append(rnd.choice(["get_if", "holds"]) + " s=%d i=%d" % (k, rnd.randrange(na)))
-        else:
+        elif r < 0.96 or alts not in CAT_CFGS:
             cnt = rnd.choice([1, 2, 2, 3]) if na <= 3 else rnd.choice([1, 2])
             lines.append("visit s=%s%s" % (fmt_list([rnd.randrange(n) for _ in range(cnt)]), rnd.choice(["", " idx=1"])))
+        else:
+            ks = rnd.sample(range(n), rnd.choice([1, 2]))
+            lines.append("vcat s=%s q=%s vis=%s" % (fmt_list(ks), fmt_list([rnd.randrange(4) for _ in ks]), rnd.choice(["cat", "take"])))
     return lines
 
 
@@ -279,7 +341,8 @@ def rand_opt(rnd, t, length):
             lines.append(rnd.choice(["reln s=%d" % k, "relv s=%d a=own v=%d" % (k, v), "relv s=%d a=i v=%d" % (k, rnd.choice([1, 2, 3]))]))
         else:
             lines.append(rnd.choice(["has s=%d" % k, "value_or s=%d v=7" % k, "value_or s=%d v=7 mv=1" % k, "and_then s=%d f=inc" % k,
-                                     "and_then s=%d f=none" % k, "or_else s=%d v=5" % k, "or_else s=%d" % k, "or_else s=%d v=4 mv=1" % k]))
+                                     "and_then s=%d f=none" % k, "or_else s=%d v=5" % k, "or_else s=%d" % k, "or_else s=%d v=4 mv=1" % k,
+                                     "ocat s=%d q=%d" % (k, rnd.randrange(4)), "ocat s=%d q=%d take=1" % (k, rnd.randrange(4))]))
     return lines
 
 
@@ -299,7 +362,8 @@ def rand_exp(rnd, alts, length):
             lines.append("swap s=%d with=%d" % (k, j))
         else:
             lines.append(rnd.choice(["has s=%d" % k, "value_or s=%d v=7" % k, "value_or s=%d v=7 mv=1" % k, "and_then s=%d f=inc" % k,
-                                     "and_then s=%d f=fail v=3" % k, "or_else s=%d f=recover v=4" % k, "or_else s=%d f=same" % k]))
+                                     "and_then s=%d f=fail v=3" % k, "or_else s=%d f=recover v=4" % k, "or_else s=%d f=same" % k,
+                                     "ecat s=%d q=%d" % (k, rnd.randrange(4))]))
     return lines
 
 
@@ -375,6 +439,16 @@ def classify(case, k, row):
         return "F-C07-expected-no-unexpected-assign"
     if op == "conv" and case.lines[0].startswith("new kind=oref") and row.impl.startswith("nc"):
         return "F-C07-optional-ref-conversion"
+    if op == "assign" and " mv=0" in case.lines[k] and row.impl == row.model:
+        # copy assignment to a different alternative whose type asks for copy-then-move ([variant.assign]/2.4, reinit-expected):
+        # exactly one slot differs, it holds an x, implementation mark 1 (copy constructed), reference mark 2
+        head = [ln for ln in case.lines[:k + 1] if ln.startswith("new ")][-1]
+        m = re.match(r"new kind=(var|exp) alts=(\w+)", head)
+        if m and "x" in m.group(2):
+            a, b = row.impl.split(" "), row.spec.split(" ")
+            diff = [(x, y) for x, y in zip(a, b) if x != y] if len(a) == len(b) else None
+            if diff and len(diff) == 1 and re.fullmatch(r"(\d:|[ve]:)x-?\d+\.1", diff[0][0]) and diff[0][1] == diff[0][0][:-1] + "2":
+                return "F-C07-copy-assign-no-copy-then-move"
     return None
 
 
